@@ -70,7 +70,10 @@ def leaves(s, v, out):
 
 
 def value_src(s, v, secret, counter, bool_as):
-    """source text rebuilding value v, leaves as PrivVal(..) when secret"""
+    """source text rebuilding value v, leaves as PrivVal(..) when secret; secret == 'mixed' decides per leaf"""
+    if secret == "mixed" and s[0] in ("bool", "intmod"):
+        counter[0] += 1
+        secret = (counter[0] * 7919 + counter[1]) % 3 != 0
     if s[0] == "bool":
         if not secret:
             return repr(v)
@@ -209,7 +212,7 @@ def worker(job):
         v = gen_value(s, rnd)
         bl = rnd.choice([8, 12, 16])
         p = rnd.choice(moduli)
-        secret = rnd.random() < 0.6
+        secret = rnd.choice([True, True, False, "mixed"])
         bool_as = rnd.choice(["PrivVal", "PrivVal", "PrivValBool"])
         ssrc = schema_src(s)
         big = max([x[0][1] for x in leaves(s, v, []) if x[0][0] == "intmod"] + [2])
@@ -225,14 +228,14 @@ def worker(job):
             m = lv[which][0][1]
             oob = rnd.choice([m, m + 1, -1] + ([(1 << (m - 1).bit_length()) - 1] if (1 << (m - 1).bit_length()) - 1 >= m else []))
             v = replace_leaf(s, v, which, oob)
-        src = "P = %s\nx = %s\nbits = P.pack(x)\nnb = P.bitlen()\ny = P.unpack(bits, 0)\n" % (ssrc, value_src(s, v, secret, None, bool_as))
-        if oob is None and not secret and rnd.random() < 0.3:
+        src = "P = %s\nx = %s\nbits = P.pack(x)\nnb = P.bitlen()\ny = P.unpack(bits, 0)\n" % (ssrc, value_src(s, v, secret, [0, rnd.randrange(100)], bool_as))
+        if oob is None and secret is False and rnd.random() < 0.3:
             # values drawn by the schema's own random(): must be in range and round-trip
             src = "P = %s\nx = P.random()\nbits = P.pack(x)\nnb = P.bitlen()\ny = P.unpack(bits, 0)\nassert y == x, (x, y)\n" % ssrc
             v = None
         out = G.run_api(G.Prog(src, [], bl, 0), [], N, modulus=p)
         key = (ssrc, repr(v), secret, bool_as, bl)
-        cell = "pack|%s|%s|%s" % (s[0], "secret" if secret else "plain", "oob" if oob is not None else "in")
+        cell = "pack|%s|%s|%s" % (s[0], "mixed" if secret == "mixed" else ("secret" if secret else "plain"), "oob" if oob is not None else "in")
         R.case(cell=cell, key=key)
         det = dict(src=src, inputs=[], bl=bl, p=p)
         if oob is None:
@@ -240,6 +243,8 @@ def worker(job):
                 R.violation("pack-roundtrip-raised", "in-range %s value: %s" % ("secret" if secret else "plain", repr(out.exc)[:120]), **det)
                 continue
             R.count("pack_roundtrips_secret" if secret else "pack_roundtrips_plain")
+            if secret == "mixed":
+                R.count("pack_roundtrips_mixed")
             if (v is not None and plain(out.ns["y"]) != plain_value(v)) or len(out.ns["bits"]) != out.ns["nb"]:
                 R.violation("pack-roundtrip-differs", "unpack(pack(x)) = %r for x = %r (bits %d, bitlen %d)" % (
                     plain(out.ns["y"]), v, len(out.ns["bits"]), out.ns["nb"]), **det)
